@@ -375,6 +375,116 @@ func runJobctlScenarios(c *Ctx) {
 		c.Nontrivial()
 	})
 
+	// F5: a kill timestamp in the future arms a timer for it: the tasks are killed when it passes,
+	// without waiting for an unrelated event or the informers' periodic resync.
+	c.RunScenario("f5-future-kill-timer", func() {
+		w := newJobctlSc(c, nil)
+		w.flush()
+		w.work() // creates the pod, records it
+		w.flush()
+		for _, p := range w.ownedPods() {
+			w.kubelet(p, 1) // the task runs
+		}
+		w.flush()
+		w.work()
+		w.setKill(w.clk.Now().Unix() + 100)
+		w.drain() // the sync that sees the future kill timestamp; then nothing is left to do
+		if w.q.Len() != 0 {
+			c.Violate("C12", "scenario-queue-drained", "the queue still holds %d ready keys", w.q.Len())
+		}
+		w.adv(101) // past the kill timestamp, far before any other deadline (pending timeout 900 s)
+		for i := 0; i < 3; i++ {
+			w.work() // due timers fire; NO resync
+			w.flush()
+		}
+		for _, p := range w.ownedPods() {
+			if podAlive(p) && p.DeletionTimestamp == nil {
+				c.Violate("C12", "kill-eventually", "the kill timestamp passed 1 s ago, every event is delivered and the queue is idle, but task %s was not deleted (no re-sync was scheduled for the kill timestamp); Job is %s",
+					p.Name, w.apiJob().Status.Phase)
+			}
+		}
+		w.flush()
+		w.settle(4)
+		w.finalMonitors()
+		c.Nontrivial()
+	})
+
+	// F6: the TTL after finish that comes from the dynamic config's default also arms a timer: the
+	// finished Job is removed when it expires, without waiting for the periodic resync.
+	c.RunScenario("f6-config-default-ttl-timer", func() {
+		// no job-level TTL (config default: 3600 s); pending timeout off, so that no other timer is armed
+		w := newJobctlSc(c, func(j *execution.Job) { j.Spec.Template.TaskPendingTimeoutSeconds = i64p(0) })
+		w.flush()
+		w.work() // creates the pod, records it
+		w.flush()
+		k := 0
+		for _, p := range w.ownedPods() {
+			w.forceKind = &k
+			w.kubelet(p, 3) // the task succeeds
+		}
+		w.drain() // Job Finished/Success; then nothing is left to do
+		if j := w.apiJob(); j == nil || j.Status.Condition.Finished == nil || w.q.Len() != 0 {
+			c.Violate("C13", "scenario-job-finished", "the Job did not finish or the queue is not drained")
+		}
+		w.adv(3601)
+		for i := 0; i < 3; i++ {
+			w.work() // due timers fire; NO resync
+			w.flush()
+		}
+		if j := w.apiJob(); j != nil && j.DeletionTimestamp == nil {
+			c.Violate("C13", "ttl-eventually", "the Job finished 3601 s ago, the effective TTL (config default) is 3600 s, every event is delivered and the queue is idle, but the Job was not deleted (no re-sync was scheduled for the expiry)")
+		}
+		w.flush()
+		w.settle(4)
+		c.Nontrivial()
+	})
+
+	// F-C20-1: a task that was created but not recorded (the status update after the create
+	// failed) is deleted by the finalizer too when the Job is deleted before the retry, and the
+	// finalizer stays until that task is gone.
+	c.RunScenario("f-c20-1-unrecorded-task-on-delete", func() {
+		w := newJobctlSc(c, nil)
+		w.flush()
+		w.faults = []string{"", sim.FaultConflict} // pod create ok, status update conflicts
+		c.Emit("jc.fault -", w.state())
+		c.Emit("jc.fault "+sim.FaultConflict, w.state())
+		w.work()
+		w.deliver("pods") // the pod cache sees the created pod; the status does not list it
+		_ = w.api.Delete("jobs", w.jobKey, false, false)
+		w.userEdited, w.resultEdited = true, true
+		c.Emit("jc.delete", w.state())
+		w.monitorJobVersion()
+		w.flush()
+		judge := func(when string) {
+			if w.apiJob() == nil && len(w.ownedPods()) > 0 {
+				c.Violate("C13", "job-gone-implies-tasks-gone", "%s: Job removed (finalizer dropped) while %d of its tasks, created but never recorded, still exist", when, len(w.ownedPods()))
+			}
+		}
+		w.work() // finalizer pass
+		judge("finalizer pass")
+		for _, p := range w.ownedPods() {
+			if w.apiJob() != nil && p.DeletionTimestamp == nil {
+				c.Violate("C13", "job-gone-implies-tasks-gone", "finalizer pass left the unrecorded task %s undeleted", p.Name)
+			}
+		}
+		w.flush()
+		w.work() // the pod is terminating: the finalizer must stay
+		judge("second pass")
+		w.flush()
+		for _, p := range w.ownedPods() {
+			w.kubelet(p, 0) // the kubelet finishes terminating it
+		}
+		w.flush()
+		w.work()
+		w.flush()
+		w.settle(4)
+		judge("at quiescence")
+		if w.apiJob() != nil {
+			c.Violate("C13", "delete-completes", "all tasks are gone but the Job still exists at quiescence")
+		}
+		c.Nontrivial()
+	})
+
 	// Correspondence regression (no defect of the code): the delete batches of one sync
 	// (pending-timeout, kill sweep, force delete) are SEQUENTIAL; only the deletes inside one
 	// batch race.  The watch events of the kill batch therefore precede those of the
